@@ -70,8 +70,8 @@ class Repo:
         with warnings.catch_warnings():
             warnings.simplefilter("ignore", SyntaxWarning)
             from .desugar import desugar
-            tree, n, skipped = desugar(src, path)
-            self.desugared[name] = (n, skipped)
+            tree, stats = desugar(src, path)
+            self.desugared[name] = stats
             code = compile(tree, path, "exec")
         exec(code, mod.__dict__)
         return mod
